@@ -160,6 +160,14 @@ prop("C18", "exploration", "lock-step reference connection table + posted-receiv
      "Non-trivial iff at least one packet was polled; distinct by hash of (configuration, operation list, case).",
      [stage("checked")], [stage("checked"), stage("asan", scale=150, optional=True)])
 
+prop("C19", "exploration", "reference device completing posted buffers in arbitrary order with uniquely numbered events; completion-order FIFO compared with deliveries; posted-buffer census after every poll",
+     "OwningQueue is exercised directly for SIZE in {1,2,8,32} x BUFFER_SIZE in {8,64,512}, and through VirtIOInput::pop_pending_event and VirtIOSound::latest_notification on model/MMIO/PCI transports (the socket receive queue is audited in C18): the reference device fills any posted buffer with a uniquely numbered event of any length 0..=BUFFER_SIZE, "
+     "bursts of 1..SIZE completions happen between polls, and every delivery must be the event at the front of the completion-order FIFO with exactly the written bytes; after every poll the buffer must have been re-posted under the same token and posted + completed-unpolled must equal the queue size, also when the handler rejects the event or ignores it.",
+     DRV_NOTE + " Written lengths never exceed the buffer size here (oversized lengths are a C07 fault).",
+     "a case is one stocked queue (12 OwningQueue instantiations x INDIRECT_DESC x EVENT_IDX, or one VirtIOInput / VirtIOSound instance on one of 3-4 transports) receiving >= 100 x SIZE events (3200 for input / sound) in bursts of 1..SIZE with the device choosing among posted buffers at random; sound notifications include unknown codes and short writes. "
+     "Non-trivial iff at least one delivered event was compared; distinct by hash of (configuration, completion choices, case).",
+     [stage("checked")], [stage("checked"), stage("asan", scale=150, optional=True), stage("miri", optional=True, timeout=7200)])
+
 NOT_YET = {}
 import re
 props = [json.loads(l) for l in open(os.path.join(ROOT, "properties.jsonl"))]
